@@ -1753,11 +1753,6 @@ def angular_separation(alpha1, delta1, alpha2, delta2):
     32.793
     """
 
-    # Let's define an auxiliary function
-    def hav(theta):
-        """Function to compute the haversine (hav)"""
-        return (1.0 - cos(theta)) / 2.0
-
     # First check that input values are of correct types
     if not (
         isinstance(alpha1, Angle)
@@ -1768,11 +1763,14 @@ def angular_separation(alpha1, delta1, alpha2, delta2):
         raise TypeError("Invalid input types")
     dalpha = alpha1 - alpha2
     dalpha = dalpha.rad()
-    ddelta = delta1 - delta2
-    ddelta = ddelta.rad()
     d1 = delta1.rad()
     d2 = delta2.rad()
-    theta = 2.0 * asin(sqrt(hav(ddelta) + cos(d1) * cos(d2) * hav(dalpha)))
+    # Meeus' formula with x, y, z (page 115): unlike the cosine or haversine
+    # formulas it is accurate for very small separations and close to 180 deg
+    x = cos(d1) * sin(d2) - sin(d1) * cos(d2) * cos(dalpha)
+    y = cos(d2) * sin(dalpha)
+    z = sin(d1) * sin(d2) + cos(d1) * cos(d2) * cos(dalpha)
+    theta = atan2(sqrt(x * x + y * y), z)
     theta = Angle(theta, radians=True)
     return theta
 
